@@ -1618,9 +1618,9 @@ pub fn plans_of(prop: &str, quick: bool) -> Vec<(LoopModel, RealPlan)> {
         }
         "C08" => {
             v.push((LoopModel::new(2, 5000, false, 1), RealPlan::Dev { k: 1, depth: 25, default: 0 }));
-            v.push((LoopModel::new(2, 5000, false, 1), RealPlan::Dev { k: 2, depth: if quick { 10 } else { 30 }, default: 1 }));
+            v.push((LoopModel::new(2, 5000, false, 1), RealPlan::Dev { k: 2, depth: if quick { 10 } else { 24 }, default: 1 }));
             v.push((LoopModel::new(2, 15000, true, 3), RealPlan::Dev { k: 1, depth: 40, default: 0 }));
-            v.push((LoopModel::new(2, 5000, false, 3), RealPlan::Dev { k: 2, depth: if quick { 24 } else { 110 }, default: 0 }));
+            v.push((LoopModel::new(2, 5000, false, 3), RealPlan::Dev { k: 2, depth: if quick { 24 } else { 64 }, default: 0 }));
             v.push((LoopModel::new(2, 5000, false, 2), RealPlan::Dev { k: 2, depth: if quick { 10 } else { 30 }, default: 1 }));
             // a link that is dead from the very start and repaired later (default symbol SecIdle)
             v.push((LoopModel::new(2, 5000, false, 3).with_start_fault(), RealPlan::Dev { k: 1, depth: if quick { 42 } else { 60 }, default: 0 }));
